@@ -145,6 +145,32 @@ Definition decide_aliases (a : auth_input) : verdict :=
   end.
 
 (* ---------- m.room.power_levels ---------- *)
+
+(* the level the notification check judges the sender at: the users map of the current content,
+   and the creator level for creators where the version's checker knows about creators *)
+Definition notif_sender_level (f : ver_flags) (c : create_info) (old : pl_content) (sender : bytes) : Z :=
+  match vf_pl_check f with
+  | PlV3 => if mem_bytes sender (creators_of c) then creator_level else pl_user_level old sender
+  | _ => pl_user_level old sender
+  end.
+
+(* powerLevelsEventAllowed after the content has been parsed and its user IDs validated:
+   checkEventLevels, the version's CheckPowerLevelEvent, checkUserLevels *)
+Definition pl_change_allowed (f : ver_flags) (c : create_info) (pl_present : bool)
+           (old new : pl_content) (sender : bytes) : verdict :=
+  let L := user_power_level f c pl_present old sender in
+  if negb (check_event_levels L old new) then VNotAllowed else
+  let Ln := notif_sender_level f c old sender in
+  let users_ok := if check_user_levels L sender old new then VOk else VNotAllowed in
+  match vf_pl_check f with
+  | PlV1 => users_ok
+  | PlV2 => if negb (check_notif_levels Ln old new) then VNotAllowed else users_ok
+  | PlV3 =>
+      if negb (check_notif_levels Ln old new) then VNotAllowed
+      else if existsb (fun u => mem_bytes u (creators_of c)) (map fst (pl_users new)) then VErr
+      else users_ok
+  end.
+
 Definition decide_power_levels (a : auth_input) : verdict :=
   match common_checks a with
   | Some v => v
@@ -153,23 +179,8 @@ Definition decide_power_levels (a : auth_input) : verdict :=
       | None, _ => VNotAllowed
       | _, None => VNotAllowed
       | Some c, Some new =>
-          if negb (ai_new_pl_users_ok a) then VErr else
-          let old := ai_pl a in
-          let L := user_power_level (ai_flags a) c (ai_pl_present a) old (ai_sender a) in
-          if negb (check_event_levels L old new) then VNotAllowed else
-          (* the notification check works out the sender's level on its own: from the users map,
-             and in versions with privileged creators at the creator level for creators *)
-          let L2 := pl_user_level old (ai_sender a) in
-          let L3 := if mem_bytes (ai_sender a) (creators_of c) then creator_level else L2 in
-          let users_ok := if check_user_levels L (ai_sender a) old new then VOk else VNotAllowed in
-          match vf_pl_check (ai_flags a) with
-          | PlV1 => users_ok
-          | PlV2 => if negb (check_notif_levels L2 old new) then VNotAllowed else users_ok
-          | PlV3 =>
-              if negb (check_notif_levels L3 old new) then VNotAllowed
-              else if existsb (fun u => mem_bytes u (creators_of c)) (map fst (pl_users new)) then VErr
-              else users_ok
-          end
+          if negb (ai_new_pl_users_ok a) then VErr
+          else pl_change_allowed (ai_flags a) c (ai_pl_present a) (ai_pl a) new (ai_sender a)
       end
   end.
 
